@@ -2,7 +2,7 @@
 # usage: tools_seed_eval.sh Cxx [check-id ...]
 # Evaluates a seeded change WITHOUT touching /repo: a scratch worktree of /repo HEAD gets seeded/Cxx/patch.diff applied and is
 # put first on PYTHONPATH; evidence/replays of these runs go to the scratch output directory (VERIF_OUT), not to /verif.
-id=$1; shift; checks=${@:-$id}
+id=$1; shift; checks=${@:-${id:0:3}}   # id is a directory under seeded/: Cxx or Cxx-2 (second round)
 wt=/tmp/mutc/$id; out=/tmp/mutc/$id.out
 mkdir -p /tmp/mutc; git -C /repo worktree remove --force $wt 2>/dev/null; rm -rf $wt $out; mkdir -p $out
 git -C /repo worktree add -q --detach $wt HEAD || exit 2
